@@ -42,6 +42,10 @@ fn main() {
             l.push(format!("[{}] {}", std::thread::current().name().unwrap_or("?"), info));
         }
     }));
+    let _ = util::REPLAYER.set(|prop, v| {
+        // quiet re-execution: the engines' replay functions print; that output is useful in the log
+        dispatch_replay(prop, v)
+    });
     let code = if args[0] == "replay" {
         ctl::start_watchdog(Duration::from_secs(60));
         let text = std::fs::read_to_string(&replay_path).expect("read replay file");
@@ -100,6 +104,7 @@ fn dispatch_replay(prop: &str, v: &serde_json::Value) -> bool {
         "E-bytes" => ebytes::replay(v),
         "H" => hist::replay(v),
         "K" => crash::replay(v),
+        "E-proj" => eproj::replay(v),
         e => {
             eprintln!("unknown engine {e:?} in replay file");
             std::process::exit(2);
